@@ -604,7 +604,16 @@ def canon(node, tu):
     if k == 'GotoStmt':
         attrs.append(('target', node.get('targetLabelDeclId')))
     ty = tu.desugar(astdb.qtype(node)) if 'type' in node else ''
-    return (k, ty, tuple(attrs)) + tuple(canon(c, tu) if c.get('kind') else ('none',) for c in node.get('inner', []))
+    subs = [canon(c, tu) if c.get('kind') else ('none',) for c in node.get('inner', [])]
+    # a controlled statement is the same program with or without braces around it
+    body_from = {'IfStmt': 1, 'WhileStmt': 1, 'DoStmt': 0, 'ForStmt': 4, 'LabelStmt': 0, 'CaseStmt': 1, 'DefaultStmt': 0, 'SwitchStmt': 1}.get(k)
+    if body_from is not None:
+        for i_ in range(body_from, len(subs)):
+            if k == 'DoStmt' and i_ != 0:
+                continue
+            if subs[i_] and subs[i_][0] != 'seq' and subs[i_] != ('none',):
+                subs[i_] = ('seq', subs[i_])
+    return (k, ty, tuple(attrs)) + tuple(subs)
 
 
 def check_neutrality(chk, tus):
